@@ -1,7 +1,7 @@
 (* C14 — permessage-deflate negotiation answers every offer as RFC 7692 7.1 requires.
    Only statements; each closed by [exact].  The model (model/Negotiate.v) transcribes
    wsflate/parameters.go and wsflate/extension.go after the fixes F6, F7, F18. *)
-Require Import Bytes Negotiate NegotiateProofs.
+Require Import Bytes Negotiate NegotiateSpec NegotiateProofs NegotiateAccept.
 From Coq Require Import Permutation.
 Open Scope N_scope.
 
@@ -102,6 +102,21 @@ Theorem C14_encode_of_parse : forall l, wf_offer l = true ->
   exists l', option_of (fst (parse l)) = Some l' /\ Permutation l' l.
 Proof. exact option_of_parse. Qed.
 Print Assumptions C14_encode_of_parse.
+
+(* "acceptable", read off the MEANING of the offer's parameter list and the configuration alone: a new negotiator
+   accepts a permessage-deflate offer exactly when the list is well-formed, a requested server window limit is not
+   below the configured server window (and one is configured), the configured client window is not above what the
+   client offered, and a requested server_no_context_takeover is configured; no other extension is ever accepted.
+   Together with C14_first_acceptable this is "accepts exactly the first acceptable offer in the client's order". *)
+Theorem C14_accepts_iff_acceptable : forall cfg ps, cfg_ok cfg = true ->
+  accepts cfg (ext_name, ps) = acceptable cfg ps.
+Proof. exact accepts_iff_acceptable. Qed.
+Print Assumptions C14_accepts_iff_acceptable.
+
+Theorem C14_other_extension_never_accepted : forall cfg name ps, name <> ext_name ->
+  accepts cfg (name, ps) = false.
+Proof. exact accepts_other. Qed.
+Print Assumptions C14_other_extension_never_accepted.
 
 (* non-vacuity: configuration {server_max_window_bits = 10, client_max_window_bits = 9};
    offers: another extension, an ill-valued one ("08"), one that must be declined
